@@ -67,5 +67,10 @@ NoBad_HWFallback == ~(taint = {"hw-fallback"} /\ Bad)
 NoBad_ExpandLagging == ~(taint = {"expand-lagging"} /\ Bad)
 NoBad_StaleIsrOffset == ~(taint = {"stale-isr-offset"} /\ Bad)
 
+\* an ALL-policy ack just emitted although some in-sync member lacks the record
+AckBad == \E a \in obs.acks : a.pol = "ALL" /\
+            (~(a.off < Len(log[Leader])) \/ \E r \in meta.isr : ~Has(r, a.off, log[Leader][a.off + 1]))
+NoBadAck_StaleIsrOffset == ~(taint = {"stale-isr-offset"} /\ AckBad)
+
 MCView == <<meta, up, role, log, hw, hwDisk, ec, isrOff, pend, caught, committed, nacked, taint, nMsgs, nElect, nCrash, nIsr, nRej>>
 =============================================================================
